@@ -2,6 +2,7 @@ import Driver.History
 import Driver.Copy
 import Driver.Api
 import Driver.Deriv
+import Driver.Ecp
 /-! Model driver.  Single-line requests: first token selects the layer.
 Multi-line requests: `begin <layer>` … `end`. -/
 
@@ -12,6 +13,7 @@ def dispatch (toks : List String) : List String :=
   match toks with
   | "history" :: rest => Driver.History.handle rest
   | "copy" :: rest => Driver.Copy.handle rest
+  | "ecp" :: rest => Driver.Ecp.handle rest
   | [] => []
   | _ => ["bad-layer"]
 
